@@ -432,6 +432,28 @@ def mon_deadline(tr):
     return out
 
 
+def mon_slots(tr):
+    """C17/C11: a Subscribe or Unsubscribe that has returned holds no transaction slot any more (whatever it returned), so the
+    number of slots in use never exceeds the number of such calls that are still on their way"""
+    out = []
+    pending = set()
+    for i, (op, lines) in enumerate(tr):
+        f = op.split()
+        if f and f[0] in ("adopt", "init", "vinit"):
+            pending = set()
+        if f and f[0] == "call" and len(f) > 2 and f[2] in ("sub", "unsub", "subhuge", "unsubhuge") and "noclient" not in lines:
+            pending.add(f[1])
+        for l in lines:
+            if l.startswith("ret "):
+                pending.discard(l.split()[1])
+        for l in lines:
+            if l.startswith("ctr ") and "tx=" in l:
+                tx = int(l.rsplit("tx=", 1)[1])
+                if tx > len(pending):
+                    out.append(("slots:leaked", "%d subscribe/unsubscribe slots are in use while %d such calls are on their way: a call that returned kept its slot" % (tx, len(pending))))
+    return out
+
+
 def mon_unordered_ids(tr):
     """C17/C11: a SUBSCRIBE or UNSUBSCRIBE never goes out with an identifier that another request still holds, and the
     identifiers stay inside their 13-bit spaces (0x6000.. subscribe, 0x4000.. unsubscribe). Packets are taken from the framed
